@@ -324,6 +324,10 @@ func c12(r *Run) {
 	r.borrow([]string{"C07.R4:timer-settled", "C07.R4:timer-armed-before-wait", "C07.R4:no-double-drain", "C07.R4:drain-after-failed-stop"}, "C07.R4", "C12.R6", func() { c07(r) })
 	r.borrow([]string{"C08.R1:lock-released", "C08.R4:timer-settled", "C08.R4:timer-armed-before-wait"}, "C08.R", "C12.R6.w", func() { c08(r) })
 	r.borrow([]string{"C10.R1:token-released"}, "C10.R1", "C12.R6", func() { c10(r) })
+	// a parked flusher / reader released by a close gets the close error itself (not a re-wrapped text), and the closing state
+	// is re-read before every wait
+	r.borrow([]string{"C08.R2:waitFlush-return"}, "C08.R2", "C12.R7", func() { c08(r) })
+	r.borrow([]string{"C07.R2:closing-reread-before-each-wait"}, "C07.R2", "C12.R7", func() { c07(r) })
 
 	// ---- R3 enumerated panic sources ---------------------------------------------------------------
 	nilGuardsFor(r, "C12.R3")
